@@ -777,4 +777,11 @@ theorem balancedAccuracy_eq_accuracy_of_balanced (C : Nat) (items : List Item) (
   rw [hrec, sum_map_div, ← cast_sum_map, hhit, hlen]
   rw [List.length_map, Nat.cast_mul, div_div]
 
+theorem mapM_total_mem {α β ε} (f : α → Except ε β) (g : α → β) (l : List α) (hf : ∀ a ∈ l, f a = .ok (g a)) :
+    l.mapM f = .ok (l.map g) := by
+  induction l with
+  | nil => simp [List.mapM_nil, pure, Except.pure]
+  | cons a l ih =>
+    simp [List.mapM_cons, hf a (by simp), ih (fun b hb => hf b (by simp [hb])), bind, Except.bind, pure, Except.pure]
+
 end SE.Metrics
